@@ -90,6 +90,7 @@ def get_start_size__end_size__total_expansion(length, end_size, total_expansion)
 def get_end_size__start_size__total_expansion(length, start_size, total_expansion):
     """Calculates end size from given start size and total expansion ratio"""
     _validate_length(length)
+    _validate_total_expansion(total_expansion)
 
     return start_size * total_expansion
 
@@ -235,6 +236,7 @@ def get_c2c_expansion__count__total_expansion(length, count, total_expansion):
     """Calculates cell-to-cell expansion ratio from given count and total expansion ratio"""
     _validate_length(length)
     _validate_count(count, ">1")
+    _validate_total_expansion(total_expansion)
 
     return total_expansion ** (1 / (count - 1))
 
